@@ -523,6 +523,11 @@ class KItem:
     v: int = 0
     note: str = Attr(default="", compare=False)
 
+@spec_class(key="k")
+class HItem:
+    k: str = Attr(default="none", init=False)
+    v: int = 0
+
 @spec_class
 class Box:
     floats: List[float] = []
@@ -544,6 +549,19 @@ class Box:
 
     def _prepare_keys_item(self, v):
         return v + 1
+
+    # ... and an item preparer registered in the decorator form, which does not depend on the helpers' names
+    label: str = "x"
+    labels: List[str] = Attr(default_factory=list)
+
+    @labels.item_preparer
+    def _(self, v):
+        return str(v)
+
+    # elements whose key is not a constructor parameter
+    hitems: List[HItem] = []
+    hmaps: Dict[str, HItem] = {}
+    hkls: KeyedList[HItem, str] = []
 
     # un-keyed spec elements in keyed containers: the key comes from a key function
     fparts: KeyedList[Item, int] = Attr(default_factory=lambda: KeyedList(key=by_v))
@@ -595,6 +613,14 @@ def run_directed(ctx):
         ("update_values_item(0, 7) [collision]", lambda: Box(values=[1, 2]), lambda b, ip: b.update_values_item(0, 7, _by_index=True, _inplace=ip), lambda b: b.values, [7, 2]),
         ("with_value(4) [scalar keeps its preparer]", lambda: Box(values=[1]), lambda b, ip: b.with_value(4, _inplace=ip), lambda b: (b.values, b.value), ([1], 40)),
         ("with_keys_item('b', 2) [collision, own item preparer]", lambda: Box(), lambda b, ip: b.with_keys_item("b", 2, _inplace=ip), lambda b: (b.keys, b.key), ({"b": 3}, "!")),  # (the default key "" is prepared on construction)
+        ("with_labels_item(5) [collision, decorator-registered item preparer]", lambda: Box(), lambda b, ip: b.with_labels_item(5, _inplace=ip), lambda b: (b.labels, b.label), (["5"], "x")),
+        ("update_labels_item(0, 7) [collision, decorator-registered item preparer]", lambda: Box(labels=["a", "b"]), lambda b, ip: b.update_labels_item(0, 7, _by_index=True, _inplace=ip), lambda b: b.labels, ["7", "b"]),
+        ("with_hitem('a') [bare key, init=False key]", lambda: Box(), lambda b, ip: b.with_hitem("a", _inplace=ip), lambda b: [(i.k, i.v) for i in b.hitems], [("a", 0)]),
+        ("with_hitem('a', v=3) [bare key, init=False key]", lambda: Box(), lambda b, ip: b.with_hitem("a", v=3, _inplace=ip), lambda b: [(i.k, i.v) for i in b.hitems], [("a", 3)]),
+        ("with_hkl('a') [bare key, init=False key]", lambda: Box(), lambda b, ip: b.with_hkl("a", _inplace=ip), lambda b: [(i.k, i.v) for i in b.hkls], [("a", 0)]),
+        ("with_hmap('a', 'b') [bare key, init=False key]", lambda: Box(), lambda b, ip: b.with_hmap("a", "b", _inplace=ip), lambda b: [(k, i.k, i.v) for k, i in b.hmaps.items()], [("a", "b", 0)]),
+        ("with_hmap('a', v=2) [no key given, init=False key]", lambda: Box(), lambda b, ip: b.with_hmap("a", v=2, _inplace=ip), lambda b: [(k, i.k, i.v) for k, i in b.hmaps.items()], [("a", "none", 2)]),
+        ("with_hitem(v=3) [no key given, init=False key]", lambda: Box(), lambda b, ip: b.with_hitem(v=3, _inplace=ip), lambda b: [(i.k, i.v) for i in b.hitems], [("none", 3)]),
         ("without_item(equal probe)", lambda: Box(items=[Item(v=1, note="keep"), Item(v=2, note="other")]), lambda b, ip: b.without_item(Item(v=1), _by_index=False, _inplace=ip),
          lambda b: [(i.v, i.note) for i in b.items], [(2, "other")]),
     ]
